@@ -20,6 +20,18 @@
 
 extern char **environ;
 static const char *ROOT;
+/* a FILE object for descriptor fd; if that descriptor is not open, a STALE one: made while it was open, closed underneath */
+static FILE *stale_or_fdopen(int fd)
+{
+  FILE *f = fdopen(fd, "w");
+  if (f) return f;
+  int n = open("/dev/null", O_WRONLY);
+  if (n < 0) return NULL;
+  if (n != fd) { if (dup2(n, fd) < 0) { close(n); return NULL; } close(n); }
+  f = fdopen(fd, "w");
+  close(fd);
+  return f;
+}
 static int VFD = 60;   /* verdict descriptor (close-on-exec, above the descriptor limit the scripts set) */
 static char outbuf[1 << 18];
 
@@ -89,7 +101,7 @@ static reproc_redirect mk_redirect(jv *r)
   d.type = (REPROC_REDIRECT) r->a[0]->i;
   d.handle = (int) r->a[1]->i;
   long f = r->a[2]->i;
-  d.file = f == 0 ? NULL : f == 1000 ? stdin : f == 1 ? stdout : f == 2 ? stderr : fdopen((int) f, "w");   /* 1000 = a FILE on descriptor 0 */
+  d.file = f == 0 ? NULL : f == 1000 ? stdin : f == 1 ? stdout : f == 2 ? stderr : stale_or_fdopen((int) f);   /* 1000 = a FILE on descriptor 0 */
   d.path = r->a[3]->t == J_STR && r->a[3]->s[0] ? mp(r->a[3]->s) : NULL;
   return d;
 }
@@ -111,7 +123,7 @@ static int do_start(reproc_t *p, jv *st, jv *exp, jv *v, int idx)
   op.env.extra = envx;
   op.redirect.in = mk_redirect(j_get(o, "rin")); op.redirect.out = mk_redirect(j_get(o, "rout")); op.redirect.err = mk_redirect(j_get(o, "rerr"));
   op.redirect.parent = j_int(o, "parent", 0) != 0; op.redirect.discard = j_int(o, "discard", 0) != 0;
-  long f = j_int(o, "file", 0); op.redirect.file = f == 1000 ? stdin : f ? fdopen((int) f, "w") : NULL;
+  long f = j_int(o, "file", 0); op.redirect.file = f == 1000 ? stdin : f ? stale_or_fdopen((int) f) : NULL;
   const char *pth = j_str(o, "path", ""); op.redirect.path = pth[0] ? mp(pth) : NULL;
   long in = j_int(o, "input", -1);
   static uint8_t data[64]; if (in >= 0) { op.input.data = data; op.input.size = (size_t) in; } else if (in == -2) { op.input.size = 3; }
